@@ -191,4 +191,25 @@ theorem C04_gen_write_audio_passes (m : Muxer) (pts : F64) (d : Bytes) :
 theorem C04_gen_convert_error (e : WErr) (idx : Nat) : convert_mp4_error e idx = convertErr e idx := by
   cases e <;> rfl
 
+/-- `encode_video`: the clock value as time stamp, the detected key flag, `write_video`, and the clock advanced by
+    `duration_ms / 1000` only when the frame was accepted — the model's `Muxer.encodeVideo` for every state -/
+theorem C04_gen_encode_video (m : Muxer) (d : Bytes) (ms : Nat) : encode_video m d ms = m.encodeVideo d ms := by
+  unfold encode_video Muxer.encodeVideo
+  dsimp only
+  generalize m.writeVideo m.curV d (m.isKeyframe d) = x
+  obtain ⟨m', r⟩ := x
+  cases r <;> rfl
+
+/-- `encode_audio`: refused without an audio track, else `write_audio` at the audio clock, which advances by
+    `samples / sample_rate` only when the frame was accepted -/
+theorem C04_gen_encode_audio (m : Muxer) (d : Bytes) (n : Nat) : encode_audio m d n = m.encodeAudio d n := by
+  unfold encode_audio Muxer.encodeAudio
+  cases ha : m.audioTrack with
+  | none => simp
+  | some a =>
+    simp only [Option.isNone_some, Bool.false_eq_true, if_false, Option.map_some, Option.getD_some]
+    generalize m.writeAudio m.curA d = x
+    obtain ⟨m', r⟩ := x
+    cases r <;> rfl
+
 end Muxide.Props.C04Generated
